@@ -191,7 +191,7 @@ def srfi38_tables(root, names):
 
 def run(prog, res, root=None):
     stat = res.stat("C08.tables", "string escape letters and #\\\\name tables of native writer/reader and SRFI-38 writer/reader agree",
-                    floor=20)
+                    floor=14)
     names, nwhere = native_char_names(prog)
     wesc, wwhere = native_writer_escapes(prog)
     resc, rwhere = native_reader_escapes(prog)
@@ -245,4 +245,81 @@ def run(prog, res, root=None):
                  "character name %s: native table -> %s, SRFI-38 writer table -> %s, SRFI-38 reader table -> %s; the four "
                  "implementations must accept and emit the same names for the same characters" %
                  (n, vals["native"], vals["srfi38-writer"], vals["srfi38-reader"]))
+    return stat
+
+
+# ------------------------------------------------------------------ C08.b: UTF-8 assembly
+def _pack_terms(fn, n, out):
+    """flatten a chain of + / | into its terms"""
+    n = fn.strip(n)
+    nd = fn.nodes[n]
+    if nd["k"] == "bin" and nd["o"] in ("+", "|"):
+        _pack_terms(fn, nd["c"][0], out)
+        _pack_terms(fn, nd["c"][1], out)
+    else:
+        out.append(n)
+
+
+def _masked_shift(fn, n):
+    """(X & M) << S  ->  (M, S);  (X & M) -> (M, 0); else None"""
+    n = fn.strip(n)
+    nd = fn.nodes[n]
+    s = 0
+    if nd["k"] == "bin" and nd["o"] == "<<":
+        s = fn.const_val(nd["c"][1])
+        if s is None:
+            return None
+        n = fn.strip(nd["c"][0])
+        nd = fn.nodes[n]
+    if nd["k"] == "bin" and nd["o"] == "&":
+        for a, b in ((0, 1), (1, 0)):
+            m = fn.const_val(nd["c"][b])
+            if m is not None and fn.const_val(nd["c"][a]) is None:
+                return (m, s)
+    return None
+
+
+def run_utf8(prog, res, floor=4, units=("sexp.c", "eval.c", "io.c", "port.c")):
+    """the decoders that assemble a code point from UTF-8 bytes pack 6-bit fields: in a sum of masked and
+    shifted bytes with continuation masks (0x3F) the shifts are pairwise distinct multiples of 6, and a complete
+    assembly of n bytes (one that includes the unshifted last byte) uses exactly 0, 6, ..., 6(n-1).  Two readers
+    that disagree on one width class read the same text as different characters."""
+    stat = res.stat("C08.b", "UTF-8 assembling expressions use the shifts 6(n-1) ... 6, 0 (pairwise distinct multiples of 6)",
+                    floor=floor)
+    for fn in prog.all_funcs():
+        if fn.unit.name not in units or not fn.blocks:
+            continue
+        seen = set()
+        for i, nd in enumerate(fn.nodes):
+            if nd["k"] != "bin" or nd["o"] not in ("+", "|") or i in seen:
+                continue
+            par = fn.parent(i)
+            while par is not None and fn.nodes[par]["k"] == "cast":
+                par = fn.parent(par)
+            if par is not None and fn.nodes[par]["k"] == "bin" and fn.nodes[par]["o"] in ("+", "|"):
+                continue        # not the top of the chain
+            terms = []
+            _pack_terms(fn, i, terms)
+            ms = [_masked_shift(fn, t) for t in terms]
+            if len(terms) < 2 or any(m is None for m in ms) or sum(1 for (m, s) in ms if m == 0x3F) < 1 \
+                    or not any(s for (m, s) in ms):
+                continue
+            stat.sites += 1
+            stat.obligations += 1
+            shifts = sorted(s for (m, s) in ms)
+            n = len(shifts)
+            complete = 0 in shifts
+            ok = len(set(shifts)) == n and all(s % 6 == 0 for s in shifts)
+            if ok and complete:
+                ok = shifts == [6 * k for k in range(n)]
+            elif ok:
+                ok = shifts == [shifts[0] + 6 * k for k in range(n)]
+            if ok:
+                stat.discharged += 1
+                stat.sample({"site": fn.where(i), "function": fn.name, "bytes": n, "shifts": shifts}, limit=8)
+            else:
+                res.add(Finding("C08", "C08.b.utf8-shifts", fn.name, "%d-term assembly" % n, fn.where(i),
+                                "%s assembles a code point from %d masked bytes with the shifts %s (expected %s): fields overlap or "
+                                "leave a gap, so this reader decodes that width class of UTF-8 differently from the other decoders "
+                                "and from the writer" % (fn.name, n, shifts, [6 * k for k in range(n)]), unit=fn.unit.display))
     return stat
